@@ -10,5 +10,6 @@ CONSTANTS
   TrustScanOrder = FALSE
   SwapBeforeApply = FALSE
   BatchOnSharedCopy = TRUE
+  BuildTrustsStorage = FALSE
 INVARIANT RejectedIsNoOp
 CHECK_DEADLOCK FALSE
